@@ -211,6 +211,18 @@ def f_undefined_in_dead_branch(m, gen, rng):
     return m2, "MissingSymbol", {"name": ln["name"]}
 
 
+def f_self_reference(m, gen, rng):
+    """a definition that reads itself: inside a sum, inside a branch of a conditional, or in an intermediate nothing reads"""
+    m2 = copy.deepcopy(m)
+    b, ln = rng.choice(all_lines(m2))
+    me = ("var", ln["name"])
+    e = ln["expr"]
+    ln["expr"] = rng.choice([("bin", "+", ("bin", "*", me, ("num", "0.5")), e),
+                             ("cond", ("rel", "Gt", e, ("num", "0")), e, ("bin", "/", me, ("num", "2"))),
+                             ("bin", "-", e, me)])
+    return m2, "Cycle", {"name": ln["name"]}
+
+
 def f_cycle(m, gen, rng):
     m2 = copy.deepcopy(m)
     k = rng.choice([1, 2, 2, 3, 5])
@@ -237,7 +249,7 @@ def f_identical_twice(m, gen, rng):
 
 
 FAULTS = [f_dup_same_deps, f_dup_parens, f_dup_diff_deps, f_dup_other_component, f_dup_derivative, f_kind_clash, f_kind_clash,
-          f_missing_derivative, f_state_in_equationless_component, f_orphan_derivative, f_wrong_component, f_undefined_symbol, f_undefined_in_dead_branch, f_cycle, f_cycle, f_identical_twice]
+          f_missing_derivative, f_state_in_equationless_component, f_orphan_derivative, f_wrong_component, f_undefined_symbol, f_undefined_in_dead_branch, f_self_reference, f_cycle, f_cycle, f_identical_twice]
 
 
 def impl_outcome(c, with_c):
@@ -357,7 +369,7 @@ def main(argv=None):
     return rep.finish(
         level="proof",
         rule="one fault (duplicate with same deps / parenthesisation only / different deps / other component / derivative; kind clashes of "
-             "every pair; missing, orphan, misplaced derivative; undefined symbol, also in a branch that a decided condition never takes; cycles of length 1-5; control: identical repetition) "
+             "every pair; missing, orphan, misplaced derivative; undefined symbol, also in a branch that a decided condition never takes; a definition that reads itself; cycles of length 1-5; control: identical repetition) "
              "at a random site of a random well-formed model with 1-3 components; every faulty text is distinct and non-trivial; outcome "
              "class of load + generate (numpy; C on every 5th) vs the loader mirror; plus right-hand sides with one token deleted / doubled / swapped / replaced: "
              "acceptance and parsed expression of the verified parser vs Lark",
